@@ -915,6 +915,13 @@ func (t *tr) call(c *ast.CallExpr, stmt bool) ([]string, []T) {
 			s, _ := t.expr(a)
 			args = append(args, s)
 		}
+		// the callee's explicit extra parameters: the caller passes its own parameters of the same names on
+		for _, e := range fi.spec.Extra {
+			if strings.HasPrefix(e, "(") {
+				names := strings.TrimSpace(strings.SplitN(strings.Trim(e, "()"), ":", 2)[0])
+				args = append(args, strings.Fields(names)...)
+			}
+		}
 		app := "(Gen." + fi.spec.Lean + " " + strings.Join(args, " ") + ")"
 		if len(args) == 0 {
 			app = "Gen." + fi.spec.Lean
@@ -1109,6 +1116,20 @@ func (t *tr) expr(e ast.Expr) (string, T) {
 		}
 		t.fail(x, "type assertion %s", t.p.text(x))
 	case *ast.CompositeLit:
+		// a literal of a configured type: "<type text>{}" with the element values as arguments
+		if x.Type != nil {
+			if ext := t.findExt(t.p.text(x.Type) + "{}"); ext != nil && ext.Value != "" {
+				var args []string
+				for _, el := range x.Elts {
+					if kv, ok := el.(*ast.KeyValueExpr); ok {
+						el = kv.Value
+					}
+					v, _ := t.expr(el)
+					args = append(args, v)
+				}
+				return subst(ext.Value, t.recvLean(), args), ext.T
+			}
+		}
 		if tv, ok := t.p.info.Types[x]; ok {
 			if _, isMap := tv.Type.Underlying().(*types.Map); isMap && len(x.Elts) == 0 {
 				if mt := t.g.goT(tv.Type); mt.Kind == "strlist" || strings.HasPrefix(mt.Lean, "List ") {
@@ -2476,7 +2497,7 @@ func (g *gen) translate(fi *fnInfo) {
 		var params []string
 		if t.recvName != "" && !spec.NoRecv {
 			rt := g.goT(t.typeOf(fd.Recv.List[0].Names[0]))
-			if rt.Kind != "struct" {
+			if rt.Kind != "struct" && rt.Kind != "opaque" {
 				t.fail(fd, "receiver type is not configured")
 			}
 			t.recvT = rt
